@@ -292,9 +292,79 @@ class ChainIter(IterBase):
         return ChainIter(self.a.clone() if self.a is not None else None, self.b.clone())
 
 
+def remaining_len(itr):
+    """number of items left, for the exact-size iterators of the model (None if unknown)"""
+    if isinstance(itr, SliceIter):
+        return itr.hi - itr.lo
+    if isinstance(itr, VecIntoIter):
+        return len(itr.items) - itr.lo
+    if isinstance(itr, ListIter):
+        return len(itr.items) - itr.lo - itr.back
+    if isinstance(itr, (EnumerateIter, MapIter, ClonedIter, RevIter)):
+        return remaining_len(itr.inner)
+    if isinstance(itr, SkipIter):
+        r = remaining_len(itr.inner)
+        return None if r is None else max(r - itr.n, 0)
+    if isinstance(itr, TakeIter):
+        r = remaining_len(itr.inner)
+        return None if r is None else min(r, itr.n)
+    if isinstance(itr, ZipIter):
+        a, b = remaining_len(itr.a), remaining_len(itr.b)
+        return None if a is None or b is None else min(a, b)
+    return None
+
+
+class ListIter(IterBase):
+    """iterator over already-built items (chunks, windows, ...), double-ended"""
+
+    def __init__(self, items):
+        self.items, self.lo, self.back = list(items), 0, 0
+        self.remainder = None
+
+    def next(self, it):
+        if self.lo + self.back >= len(self.items):
+            return None
+        v = self.items[self.lo]
+        self.lo += 1
+        return v
+
+    def next_back(self, it):
+        if self.lo + self.back >= len(self.items):
+            return None
+        self.back += 1
+        return self.items[len(self.items) - self.back]
+
+    def clone(self):
+        c = ListIter(self.items)
+        c.lo, c.back, c.remainder = self.lo, self.back, self.remainder
+        return c
+
+
+class TakeIter(IterBase):
+    def __init__(self, inner, n):
+        self.inner, self.n = inner, n
+
+    def next(self, it):
+        if self.n <= 0:
+            return None
+        self.n -= 1
+        return self.inner.next(it)
+
+    def clone(self):
+        return TakeIter(self.inner.clone(), self.n)
+
+
 class SkipIter(IterBase):
     def __init__(self, inner, n):
         self.inner, self.n = inner, n
+
+    def next_back(self, it):
+        r = remaining_len(self)
+        if r is None:
+            raise Unsupported("Skip::next_back over an iterator of unknown length")
+        if r <= 0:
+            return None
+        return self.inner.next_back(it)
 
     def next(self, it):
         while self.n > 0:
@@ -835,6 +905,8 @@ class Interp:
         if t.endswith("::INFINITY") and "f64" in t:
             return self.dom.const(float("inf"))
         last = t.split("::")[-1]
+        if "Ordering" in t and last in ("Less", "Equal", "Greater"):
+            return EnumVal("Ordering", last, {"Less": -1, "Equal": 0, "Greater": 1}[last])
         if last in self.p.consts:
             return self.eval_const(self.p.consts[last])
         raise Unsupported("constant %r" % t)
@@ -883,6 +955,8 @@ class Interp:
                     base = strip_path(full)
                 if "Option" in full and full.rstrip().endswith("None"):
                     return Opt(None, False)
+                if base in ("Less", "Equal", "Greater") and not ops and ("Ordering" in full or "::" not in full.strip()):
+                    return EnumVal("Ordering", base, {"Less": -1, "Equal": 0, "Greater": 1}[base])
                 if "Option" in full and base == "Some":
                     return Opt(ops[0], True)
                 if rv.kind == "struct" and base in self.p.struct_fields:
